@@ -629,6 +629,10 @@ class Runner:
                 finally:
                     os.unlink(path)
                 return {"k": "ok"}
+            if self.opts.get("same_fn"):
+                # the application passes one and the same file name for whatever it loads (the name is documentation)
+                self.yps[op["e"] - 1].load_script_from_string(code, fn="program.py", overwrite=op["ow"])
+                return {"k": "ok"}
             self.yps[op["e"] - 1].load_script_from_string(code, overwrite=op["ow"])
             return {"k": "ok"}
         if k == "loadfail":
